@@ -110,11 +110,18 @@ let snapshot id step (inp : input) (s : state) =
     let waits = List.map (fun c -> Model.Z.sub c.c_start c.c_arrival) r in
     let rec suffix = function [] -> [] | w :: rest -> (match suffix rest with [] -> [w] | (x :: _) as l -> Model.Z.add w x :: l) in
     let slacks = Array.of_list (suffix waits) in
+    let cells = Array.of_list r in
     List.iteri (fun i c ->
-      Printf.printf "%s cell %d %d %d tr %s ct %s a %s s %s e %s L %s D %s W %s P %d K %s\n" p vi i (n2i c.c_stop)
+      (* per-stop values of the registered expressions (derived: step between consecutive cumulative values) *)
+      let dv = if not (has_distance_limit inp) then "0"
+               else if i = 0 then zs c.c_cumdist else zs (Model.Z.sub c.c_cumdist cells.(i-1).c_cumdist) in
+      let lv = List.mapi (fun k l ->
+                 if not (has_capacity inp) then "0"
+                 else if i = 0 then zs l else zs (Model.Z.sub l (List.nth cells.(i-1).c_levels k))) c.c_levels in
+      Printf.printf "%s cell %d %d %d tr %s ct %s a %s s %s e %s L %s D %s W %s P %d K %s V %s\n" p vi i (n2i c.c_stop)
         (zs c.c_travel) (zs c.c_cumtravel) (zs c.c_arrival) (zs c.c_start) (zs c.c_end)
         (let l = String.concat "," (List.map (fun l -> if has_capacity inp then zs l else "0") c.c_levels) in if l = "" then "-" else l) (if has_distance_limit inp then zs c.c_cumdist else "0") (if has_max_wait_vehicle inp then zs c.c_wait_acc else "0") (n2i c.c_pos)
-        (if i = 0 then "-" else zs slacks.(i))) r)
+        (if i = 0 then "-" else zs slacks.(i)) (String.concat "," (dv :: lv))) r)
     s.st_routes;
   Printf.printf "%s planned %s\n" p (keys inp s.st_planned);
   Printf.printf "%s unplanned %s\n" p (keys inp s.st_unplanned);
